@@ -166,7 +166,8 @@ def check_property(prop, tier="quick", replay=None, src_root=None, quiet=False,
         traceback.print_exc(file=sys.stdout)
         return 2
 
-    known = [k for k in load_known() if k.get("property") == prop]
+    # matched by (rule, key); shared rules are listed once under their home property
+    known = load_known()
     known_active = {(k["rule"], k["key"]): k for k in known if k.get("status") == "known"}
     findings = [o for o in ctx.obligations if not o.ok]
     # de-duplicate findings with the same rule+key (one construct reached twice)
